@@ -26,6 +26,30 @@ func main() {
 		if r == "yes" {
 			os.Exit(1)
 		}
+	case "proto":
+		// debug: gosmt proto <side> <N>
+		scratch, _ := os.MkdirTemp("", "gosmt-*")
+		defer os.RemoveAll(scratch)
+		l, err := loadProgram([]string{"io"}, scratch)
+		if err != nil {
+			fmt.Println(err)
+			os.Exit(2)
+		}
+		n, _ := strconv.Atoi(os.Args[3])
+		rep := &protoReport{Side: os.Args[2], N: n}
+		c, trees, np, probs := extractTrees(l, os.Args[2], n, map[string]uint64{"internal.GetMagicType": 0})
+		fmt.Println("paths", np, "problems", probs)
+		for _, tr := range trees {
+			fmt.Println("task", tr.task, "nodes", len(tr.nodes), "depth", tr.depth)
+			for _, nd := range tr.nodes {
+				for _, e := range nd.edges {
+					fmt.Printf("   %d -[%s]-> %d %s %s\n", nd.id, c.tb.Show(e.guard), e.to.id, e.to.ev.Kind, e.to.ev.Site)
+				}
+			}
+		}
+		protoBMC(c, os.Args[2], trees, rep, 60000)
+		b, _ := json.MarshalIndent(rep, "", " ")
+		fmt.Println(string(b))
 	case "selfcheck":
 		os.Exit(cmdSelfcheck(os.Args[2:]))
 	default:
